@@ -44,7 +44,7 @@ pub fn ext_degree(t: usize) -> ExtensionDegree {
 }
 
 pub trait Grp:
-    CurvePointProtocol + Precomputable + MultiscalarMul<Point = Self> + FromUniformBytes + Clone + PartialEq + 'static
+    CurvePointProtocol + Precomputable + MultiscalarMul<Point = Self> + FromUniformBytes + Clone + PartialEq + Send + Sync + 'static
 where
     for<'p> &'p Self: Mul<Scalar, Output = Self>,
     for<'p> &'p Self: Add<Output = Self>,
